@@ -168,7 +168,11 @@ func (g *HistGen) genItemFor(t *TableSpec) Item {
 			add(ix.Range[0], g.keyVal(ix.Range[1], rangeVals))
 		}
 	}
-	// attributes that could become index keys later
+	// attributes that could become index keys later — sometimes with a type no later index will accept:
+	// such an item stays outside the index when it is created, and must still be deletable and writable
+	if g.p.BadPct >= 30 && g.r.Chance(25) {
+		add(pick(g.r, []string{"g", "g2"}), AV{T: "N", V: []byte("5")})
+	}
 	if g.r.Chance(50) {
 		add("g", S(pick(g.r, gVals)))
 	}
@@ -898,8 +902,34 @@ func (g *HistGen) genMgmt() {
 		if len(live) > 0 {
 			t := pick(g.r, live)
 			ix := g.newIndexSpecFor(t, fmt.Sprintf("late%d", len(t.GSI)))
+			// an item the new index cannot take (its key attribute has another type): it stays outside the
+			// index, and deleting or rewriting it afterwards must work like for any other item
+			var stray Item
+			covered := false
+			for _, o := range append(append([]IndexSpec{}, t.GSI...), t.LSI...) {
+				if o.Hash[0] == ix.Hash[0] || (o.Range != nil && o.Range[0] == ix.Hash[0]) {
+					covered = true
+				}
+			}
+			if !covered && ix.Hash[0] != t.Hash[0] && (t.Range == nil || ix.Hash[0] != t.Range[0]) && g.r.Chance(50) {
+				stray = append(g.genKey(t), KV{[]byte(ix.Hash[0]), AV{T: "N", V: []byte("5")}}, KV{[]byte("v"), S("1")})
+				g.ops = append(g.ops, &Op{Op: "put", Table: HexS(t.Name), Item: stray})
+			}
 			g.ops = append(g.ops, &Op{Op: "updateTable", Table: HexS(t.Name), Changes: []IndexChange{{Create: &IndexDef{Name: HexS(ix.Name), Key: *keyDefOf(ix.Hash, ix.Range), TP: true}}}})
 			t.GSI = append(t.GSI, ix)
+			if stray != nil {
+				key := Item{stray[0]}
+				if t.Range != nil {
+					key = append(key, stray[1])
+				}
+				if g.r.Chance(60) {
+					g.ops = append(g.ops, &Op{Op: "delete", Table: HexS(t.Name), KeyItem: key, RetOld: g.r.Bool()})
+				} else {
+					up := &Op{Op: "update", Table: HexS(t.Name), KeyItem: key, Expr: HexS("SET v = :x")}
+					up.setExprs(map[string]string{}, map[string]AV{":x": S("2")})
+					g.ops = append(g.ops, up)
+				}
+			}
 		}
 	case 4: // delete an index
 		if len(live) > 0 {
